@@ -1289,6 +1289,18 @@ func runC14(c *rt.Ctx) {
 	all := !c.Quick()
 	var fams []c14Family
 	fams = append(fams, c14AllStrings("len0..5 over {c,a,s,h,u,A,B,e,=,_}", "cashuABe=_", 0, 5))
+	// whitespace and lengths just above the 6-byte prefix: strings whose raw length passes a length check while their
+	// trimmed / significant part does not
+	fams = append(fams, c14AllStrings("len0..8 over {space,newline,tab,c,A}", " \n\tcA", 0, 8))
+	var padded []string
+	for _, core := range []string{"", "c", "cashu", "cashuA", "cashuB", "cashuAe30=", "cashuBo2F0"} {
+		for _, l := range []string{"", " ", "\n", "\t", "   ", "\r\n", "\x00", "\u00a0", "\u2028"} {
+			for _, r := range []string{"", " ", "\n", "\t", "      ", "\r\n", "\x00", "\u00a0"} {
+				padded = append(padded, l+core+r)
+			}
+		}
+	}
+	fams = append(fams, c14ListFamily("padded cores (7 cores × 9 left × 8 right whitespace / control paddings)", padded))
 	if all {
 		fams = append(fams, c14AllStrings("len6..8 over {c,a,A,=}", "caA=", 6, 8))
 		fams = append(fams, c14PrefixFamily(3))
